@@ -2,6 +2,7 @@
 import os
 from pathlib import Path
 from typing import Union
+from xml.etree import ElementTree
 
 from .database import Database
 
@@ -30,6 +31,13 @@ def load_file(file_name: Union[str, Path]) -> Database:
         raise RuntimeError(f"Could not guess the file format of file '{file_name}'!")
 
 
+def _process_catalog(db: Database, catalog_file: Path) -> None:
+    # like for PDX files, the catalog specifies the name of the database
+    root = ElementTree.parse(str(catalog_file)).getroot()
+    if (db_short_name := root.findtext("SHORT-NAME")) is not None:
+        db.short_name = db_short_name
+
+
 def load_files(*file_names: Union[str, Path]) -> Database:
     db = Database()
     for file_name in file_names:
@@ -38,7 +46,9 @@ def load_files(*file_names: Union[str, Path]) -> Database:
             db.add_pdx_file(str(file_name))
         elif p.suffix.lower().startswith(".odx"):
             db.add_odx_file(str(file_name))
-        elif p.name.lower() != "index.xml":
+        elif p.name.lower() == "index.xml":
+            _process_catalog(db, p)
+        else:
             db.add_auxiliary_file(p.name, open(str(file_name), "rb"))
 
     db.refresh()
@@ -57,7 +67,9 @@ def load_directory(dir_name: Union[str, Path]) -> Database:
             db.add_pdx_file(str(p))
         elif p.suffix.lower().startswith(".odx"):
             db.add_odx_file(str(p))
-        elif p.name.lower() != "index.xml":
+        elif p.name.lower() == "index.xml":
+            _process_catalog(db, p)
+        else:
             db.add_auxiliary_file(p.name, open(str(p), "rb"))
 
     db.refresh()
